@@ -418,7 +418,15 @@ def step (s : St4) (n : Nat) (line : String) : St4 × List Finding :=
       if !shape.isEmpty then (s, shape) else
       let (x', r) := Agent4.modify s.cfg s.cfg4 (withEnv s.x rpcs) a req
       let sharesKey := removesSharing ((s.x.w.conn a).sessions.find? (·.lseid = req.seid)) req.removePdrs
-      let label := s!"mod{modParts req}" ++ (if sharesKey then " removes-a-PDR-that-shares-its-sessions-entry" else "") ++ (if r.cause = 1 then "" else " rejected")
+      -- an accepted Update PDR after which the rule has another application filter (its terminations entry moves to another key)
+      let stored := (s.x.w.conn a).sessions.find? (·.lseid = req.seid)
+      let afterS := (x'.w.conn a).sessions.find? (·.lseid = req.seid)
+      let filterChange := r.cause = 1 && req.updatePdrs.any fun u =>
+        match stored.bind (·.pdrs.find? (·.pdrID = u.id)), afterS.bind (·.pdrs.find? (·.pdrID = u.id)) with
+        | some o, some n => afOf o != afOf n
+        | _, _ => false
+      let label := s!"mod{modParts req}" ++ (if sharesKey then " removes-a-PDR-that-shares-its-sessions-entry" else "") ++
+        (if filterChange then " update-PDR-changes-filter" else "") ++ (if r.cause = 1 then "" else " rejected")
       let (s', fs) := common s label obs x' (getNat obs "cause") true
       (s', replyFindings obs r ++ fs)
     | "del" =>
